@@ -77,6 +77,48 @@ func structuralTargets(data []byte, cfg gen.Cfg) []int {
 	return out
 }
 
+// redirects lists every index-entry and object-record position field together with the
+// block offsets that fit in its encoded length (its own block, its siblings, blocks of
+// other types): the raw material for cycles and type confusion in the index descent.
+func redirects(data []byte, cfg gen.Cfg) []gen.Redirect {
+	f := specdec.Decode(data, cfg.HashSize(), !cfg.Unaligned)
+	var offs []uint64
+	for _, b := range f.Blocks {
+		offs = append(offs, b.Off)
+	}
+	fit := func(n int) []uint64 {
+		var out []uint64
+		for _, o := range offs {
+			if varintBytes(o) == n {
+				out = append(out, o)
+			}
+		}
+		return out
+	}
+	var out []gen.Redirect
+	for i := range f.Blocks {
+		b := &f.Blocks[i]
+		for _, e := range b.Index() {
+			out = append(out, gen.Redirect{PosOff: e.PosOff, PosLen: e.PosLen, Targets: fit(e.PosLen)})
+		}
+		for _, e := range b.Objs() {
+			if e.PosLen > 0 {
+				out = append(out, gen.Redirect{PosOff: e.PosOff, PosLen: e.PosLen, Targets: fit(e.PosLen)})
+			}
+		}
+	}
+	return out
+}
+
+func varintBytes(v uint64) int {
+	n := 1
+	for v >>= 7; v != 0; v >>= 7 {
+		v--
+		n++
+	}
+	return n
+}
+
 func minI(a, b int) int {
 	if a < b {
 		return a
@@ -265,7 +307,7 @@ func propC18(c c18Case, o *Obs) error {
 		}
 		other, _, _, _ = WriteTable(c.Other)
 		targets := structuralTargets(valid, c.Table.Cfg)
-		data = gen.Apply(valid, other, targets, c.Muts, c.FixCRC, c.Table.Cfg.HeaderSize())
+		data = gen.Apply(valid, other, targets, c.Muts, c.FixCRC, c.Table.Cfg.HeaderSize(), redirects(valid, c.Table.Cfg)...)
 	}
 	if p := os.Getenv("VERIF_CURCASE"); p != "" {
 		b, _ := json.Marshal(map[string]interface{}{"case": c})
